@@ -4,11 +4,14 @@ from .pcommon import *
 def run_check(tier, seed, replay=None):
     n, m = (400, 10) if tier == "quick" else (6000, 25)
     return parser_family_check("C03", tier, seed, replay, CODE_CONTENT | CODE_PANIC,
-        models=[("parser", "MC_Parser.tla", "MC_Parser_%s.cfg" % tier)],
+        models=[("parser", "MC_Parser.tla", "MC_Parser_%s.cfg" % tier), ("tracker", "MC_Tracker.tla", "MC_Tracker_%s.cfg" % tier)],
         suites=[("model", "words", [], "parser"),      # every stream of the bounded model, on the real parser
                 ("conforming", "c02", [], None),   # every opcode / enumerant / mask bit must be ACCEPTED and delivered intact
                 ("mut", "c03", ["--n", str(n), "--mutants", str(m)], None),
-                ("specop", "specop", [], None)],
+                ("specop", "specop", [], None),
+                # context-dependent literal widths: the grammar of OpConstant / OpSwitch depends on the declarations seen
+                # so far, also when a type is declared after a first use (histories of the tracker model)
+                ("widths", "c10", ["--n", "200" if tier == "quick" else "3000"], "tracker")],
         required_tags=["wellformed", "truncate", "wordcount", "opcode", "substitute", "delete-word", "insert-word", "header",
                        "extent-past-end", "trailing", "specop"],
         required_results=["Ok", "Err:WordCountZero", "Err:OpcodeUnknown", "Err:OperandExpected", "Err:OperandExceeded",
